@@ -69,3 +69,59 @@ def generic_replay(ctx, prop, payload):
         return 1
     print("replayed case passes on the current tree: %r" % (case["args"],))
     return 0
+
+
+WALK_CONFIGS = ["default", "secwithin", "required", "cautious", "within_req", "f_copy_all", "f_TRS_desc", "f_desc_STR",
+                "f_S_desc_TR", "f_TR_desc_S"]
+WALK_INVS = ["Conservation", "AtLeastOneTractW", "FallBackIsWhole", "MustFallBackAgrees"]
+
+
+def walk_conformance(ctx, maxtok=3, keep=1.0, alphabet="full", faults=True):
+    """Design check of the marker-walk model (PlssWalk.tla) + replay of every terminal state into the real
+    PLSSDesc; disagreements are DRIFT (model != code), never a verdict."""
+    base = {"MaxTok": maxtok, "Configs": set(WALK_CONFIGS), "Alphabet": alphabet}
+    ctx.tlc("PlssWalk", dict(base, Fault="none", EmitCases=False), invariants=WALK_INVS, spec="WSpec")
+    if faults:
+        ctx.tlc("PlssWalk", dict(base, MaxTok=2, Fault="none", EmitCases=False), invariants=WALK_INVS, spec="WSpec",
+                coverage=True, count=False)
+        ctx.require_actions(["WChoose", "FindMatches", "Prime", "WalkStep", "AfterWalk", "SecWithin", "FallBack", "Finish"])
+        ctx.tlc("PlssWalk", dict(base, Fault="drop_unused", EmitCases=False), invariants=WALK_INVS, spec="WSpec",
+                expect_violation="drop_unused", count=False)
+        ctx.tlc("PlssWalk", dict(base, Fault="double_handoff", EmitCases=False), invariants=WALK_INVS, spec="WSpec",
+                expect_violation="double_handoff", count=False)
+    res = ctx.tlc("PlssWalk", dict(base, Fault="none", EmitCases=True), invariants=["EmitWalk"], spec="WSpec", workers=1,
+                  count=False, timeout=3000)
+    cases = []
+    for i, c in enumerate(res.cases):
+        if keep < 1.0 and ctx.rng.random() > keep:
+            continue
+        info = {}
+        text, markers = plsstok.render_tokens(c["toks"], ctx.rng, info=info)
+        args = {"text": text, "markers": markers, "source": "SRC-1", "num2tok": info.get("num2tok", {})}
+        args.update(plsstok.config_args(c["cfg"], ctx.rng))
+        seccount = [info.get("seccount", {}).get(j, 0) for j in range(1, len(c["toks"]) + 1)]
+        cases.append({"id": "w%d" % i, "kind": "plss_walk", "abs": {"model": c, "seccount": seccount}, "args": args})
+    obs = ctx.impl_map("plss_walk", cases)
+    recs = []
+    by_id = {}
+    for c in cases:
+        o = obs.get(c["id"])
+        if o is None:
+            continue
+        by_id[c["id"]] = c
+        m = c["abs"]["model"]
+        recs.append({"id": c["id"],
+                     "model": {"lay": m["lay"], "fell": m["fell"], "comps": m["comps"], "unused": m["unused"], "eflags": m["eflags"]},
+                     "seccount": c["abs"]["seccount"] or [0],
+                     "obs": {k: o.get(k) for k in ("exc", "lay", "tracts", "unused", "eflags")}})
+    ctx.validate("PlssWalkTrace", recs, {}, invariants=("Drift",))
+    kinds = {}
+    for cid, what in [(d[0], d[1] if len(d) > 1 else "?") for d in ctx.last_drift_details]:
+        kinds[what] = kinds.get(what, 0) + 1
+        c = by_id[cid]
+        ctx.add_drift(1, {"what": what, "text": c["args"]["text"], "config": c["args"].get("config"),
+                          "layout": c["args"].get("layout"), "model": {k: c["abs"]["model"][k] for k in ("lay", "fell", "comps", "unused", "eflags")},
+                          "observed": {k: obs[cid].get(k) for k in ("lay", "raw", "raw_e")}})
+    ctx.notes["walk_model_cases"] = ctx.notes.get("walk_model_cases", 0) + len(recs)
+    ctx.notes["walk_model_drift_kinds"] = kinds
+    return cases, obs
